@@ -119,6 +119,7 @@ static cocls::async<void> access_co(G &gen, int style, int arg, Obs &o) {
     o.done = true;
 }
 
+static int g_next_unstable;  // the object returned by next() answered differently when asked a second time
 template <typename G>
 static Obs access_sync(G &gen, int style, int arg) {
     constexpr bool has_arg = !G::arg_is_void;
@@ -126,10 +127,18 @@ static Obs access_sync(G &gen, int style, int arg) {
     try {
         if (style == NEXT_VALUE) {
             bool b;
-            if constexpr (has_arg)
-                b = gen.next(arg);
-            else
-                b = gen.next();
+            // the result of next() is kept and asked twice (if (!n) break; ... if (n) use(value())): one step of the generator
+            if constexpr (has_arg) {
+                auto n = gen.next(arg);
+                b = n;
+                bool again = n;
+                if (again != b) g_next_unstable++;
+            } else {
+                auto n = gen.next();
+                b = n;
+                bool again = n;
+                if (again != b) g_next_unstable++;
+            }
             if (b) {
                 o.val = gen.value();
                 o.kind = 1;
@@ -249,7 +258,9 @@ static void run_case_t(seqx::Runner &R, bool with_arg, const std::vector<int> &b
             }
             args_passed.push_back(arg);
             if (style == NEXT_VALUE || style == CALL_WAIT) {
+                g_next_unstable = 0;
                 judge(access_sync(*gen, style, arg), cs_names[style]);
+                if (g_next_unstable) R.fail("gen/next-result-unstable", "the object returned by next() converted to bool twice gave two different answers (the generator was stepped again)");
             } else {
                 Obs o;
                 access_co(*gen, style, arg, o).detach();
